@@ -204,6 +204,26 @@ def run_case(case):
                 if got != want:
                     vs.append({"clause": "a call returns the result determined by its own arguments",
                                "detail": f"simulate with additional targets {tg}: after other values were written into the (not passed) template object of this build, the frame differs from that of a fresh function object called with the same arguments"})
+        # two parameter sets that differ far below printing precision (the x and x + h of a finite difference), array leaves:
+        # the second call must be the result of *its* parameters
+        if not vs:
+            import copy as _copy
+
+            for leaf in ("numpy", "jax"):
+                p1 = params_impl(Pa, leaf)
+                p2 = _copy.deepcopy(p1)
+                mk = np.asarray if leaf == "numpy" else I.jnp.asarray
+                p1["beta"] = mk(float(Pa["beta"]))
+                p2["beta"] = mk(float(Pa["beta"]) + 2.0 ** -30)
+                fns.solve_and_simulate(p1, initial_states=init_impl(mj, inits[0]), seed=seeds[0])
+                got = _frame_key(fns.solve_and_simulate(p2, initial_states=init_impl(mj, inits[0]), seed=seeds[0]))
+                want = _frame_key(ref.solve_and_simulate(p2, initial_states=init_impl(mj, inits[0]), seed=seeds[0]))
+                evals += 1
+                out["hist"]["nearby_params_array_leaves"] = 1
+                if got != want:
+                    vs.append({"clause": "a call returns the result determined by its own arguments",
+                               "detail": f"solve_and_simulate with {leaf} array leaves: a call with beta + 2^-30 right after a call with beta differs from a fresh function object called with beta + 2^-30"})
+                    break
         solve2, tmpl2 = get_lcm_function(model, targets="solve")
         V2 = [np.asarray(v) for v in solve2(params_impl(Pa))]
         evals += 1
